@@ -140,9 +140,19 @@ def discharge(spec, workroot, keep=False, extra_cbmc=None, trace_props=None, sol
     try:
         rc, out, t = run(cbmc, wd, TIMEOUT)
     except ToolError as e:
-        res["status"] = "timeout"
-        res["reason"] = str(e)
-        return res
+        if solver:
+            res["status"] = "timeout"
+            res["reason"] = str(e)
+            return res
+        # the default SAT back end (minisat) did not finish: the same query once more on kissat before the function is reported undecided
+        try:
+            rc, out, t = run(cbmc + ['--external-sat-solver', 'kissat'], wd, TIMEOUT)
+            res["backend_fallback"] = "kissat (minisat did not finish within %d s)" % TIMEOUT
+            t += TIMEOUT
+        except ToolError as e2:
+            res["status"] = "timeout"
+            res["reason"] = str(e) + "; kissat: " + str(e2)
+            return res
     res["tool_s"]["cbmc"] = round(t, 2)
     try:
         js = json.loads(out)
